@@ -78,6 +78,13 @@ def compare_with_model(case, out: Outcome, label_check=True, profile_name="c03")
     allfiles = dict(files)
     allfiles.update(inc_files)
     real = driver.assemble_mem(src, rom=rom, files=allfiles)
+    if real.accepted and lseed is not None and lseed % 4 == 1:
+        # asking for the symbol listing (Program(dump_symbols=True) / --dump-symbols) only prints: same bytes, same labels
+        dumped = driver.assemble_mem(src, rom=rom, files=allfiles, wrap=lambda p: setattr(p, "dump_symbols", True))
+        out.labels.append("dump-symbols")
+        if not dumped.accepted or dumped["blocks"] != real["blocks"] or sorted(dumped["labels"]) != sorted(real["labels"]):
+            out.bad("dump-symbols-changes-output", case, f"with dump_symbols=True the result differs: {dumped['status']} {dumped['exc']} "
+                    f"{driver.blocks_json(dumped['blocks'], 16)[:4]} vs {driver.blocks_json(real['blocks'], 16)[:4]}\n{src}")
     st = model.stats
     out.labels += [f"rom:{rom}", f"model:{model.status}"]
     if model.status == "unspecified":
